@@ -68,6 +68,22 @@ def small_positions(res, n, seed_off=0, far_from_fifty=True):
         out.append(' '.join(f))
     return out
 
+def model_sessions(res, positions_list, tier=None):
+    """deterministic sessions: the normalised implementation output must equal the extracted search/driver model"""
+    import gen_session
+    rng = random.Random(res.seed + 31)
+    cases = V.corpus('session') + gen_session.gen(rng, tier or res.tier, positions_list)
+    impl = V.run_impl('session', cases)
+    model = V.run_model('session', cases)
+    res.count('session-model', cases, getattr(gen_session, 'nontrivial', None))
+    k = 0
+    for c, i, m in zip(cases, impl, model):
+        ni = gen_session.normalise(i)
+        if ni != m:
+            if k < MAXREP: res.violation('session', c, m[-700:], ni[-700:], 'model', 'engine output differs from the Coq search/driver model (node counts, scores, pv, bestmove, read-back FEN)')
+            k += 1
+    return cases
+
 # ------------------------------------------------------------------ C07
 GO_GRID = ['go depth 1', 'go depth 2', 'go depth 3', 'go depth 0', 'go movetime 0', 'go movetime 1', 'go movetime 5', 'go movetime 40',
            'go wtime 60000 btime 60000 winc 0 binc 0', 'go wtime 1 btime 1', 'go wtime 0 btime 0', 'go wtime 1000 btime 1000 winc 10 binc 10',
@@ -141,7 +157,8 @@ def c07(res, ctx):
         if bad:
             if k < MAXREP: res.violation('session', c, 'exactly one legal, non-null bestmove per go', o[-600:], 'spec', bad)
             k += 1
-    return dict(rule='sessions of 1-3 position/go cycles (with/without ucinewgame) over the go grid %s, searchmoves subsets, thrice-repeated roots, hook-interrupted and real-time-stopped searches; legality judged by the extracted Rules.v' % GO_GRID)
+    model_sessions(res, ps)
+    return dict(rule='deterministic sessions against the extracted search/driver model; sessions of 1-3 position/go cycles (with/without ucinewgame) over the go grid %s, searchmoves subsets, thrice-repeated roots, hook-interrupted and real-time-stopped searches; legality judged by the extracted Rules.v' % GO_GRID)
 
 # ------------------------------------------------------------------ C09
 def c09(res, ctx):
@@ -204,7 +221,8 @@ def c09(res, ctx):
         if bad:
             if k < MAXREP: res.violation('session', c, 'board unchanged; one legal bestmove; depth-1 score of a fresh engine', o[-600:], 'property', bad)
             k += 1
-    return dict(rule='for each position: abort points spread over 1..nodes of a depth-3 search (polling period 1, stop flag / move-time modes), chains of 2-6 consecutive interrupted searches, real-time stop and movetime expiry; read-back FEN, bestmove legality and a following go depth 1 are checked')
+    model_sessions(res, ps)
+    return dict(rule='deterministic sessions (incl. hook aborts) against the extracted search/driver model; for each position: abort points spread over 1..nodes of a depth-3 search (polling period 1, stop flag / move-time modes), chains of 2-6 consecutive interrupted searches, real-time stop and movetime expiry; read-back FEN, bestmove legality and a following go depth 1 are checked')
 
 # ------------------------------------------------------------------ C08
 MATES = [
@@ -360,8 +378,7 @@ def c11(res, ctx):
             cases.append(p + '\t' + lm); cases.append(flip_fen(p) + '\t' + lm)
     impl, model = (V.run_impl('eval', cases), None)
     res.count('eval', cases)
-    if ctx.get('have_eval_model'):
-        model = V.run_model('eval', cases)
+    model = V.run_model('eval', cases)
     k = 0
     for i in range(0, len(cases), 2):
         a, b = impl[i], impl[i + 1]
